@@ -24,8 +24,8 @@ CONSTANTS
   NRepl = 17
   RichOnly = FALSE
   MaxRich <- Unlimited
-  PKinds <- KStruct
-  MaxEdits = 1
+  PKinds <- KStructCmt
+  MaxEdits = 3
   NCmtCls = 8
   NCppForms = 18
   NGarb = 3
